@@ -1038,19 +1038,24 @@ impl SimHooks for World {
                 *c += 1;
                 v
             };
+            let mut hit: Option<i32> = None;
             for (f, used) in w.faults.iter_mut() {
-                if *used {
+                if *used || hit.is_some() {
                     continue;
                 }
                 if let Sel::Nth { kind: IoKind::Read, class: c, n: want } = &f.sel {
                     if (*c == class || *c == PathClass::Any) && *want == n {
                         *used = true;
                         if let FaultAction::Fail { errno } = f.action {
-                            w.fired.bump("read_err");
-                            return Err(errno);
+                            hit = Some(errno);
                         }
                     }
                 }
+            }
+            if let Some(errno) = hit {
+                w.push_event("read", &name, offset, len as u64, errno as i64);
+                w.note_fault("read_err", &name);
+                return Err(errno);
             }
         }
         Ok(())
